@@ -61,6 +61,8 @@ def same_iteration_dominator(bi, p, x):
 
 
 @rule("C02", "R02.1", "tracker pairing: the ack-id map and the expiry schedule are updated together on every path", floor=6)
+@rule("C01", "R02.1", "tracker pairing: the ack-id map and the expiry schedule are updated together on every path", floor=6)
+@rule("C05", "R02.1", "tracker pairing: the ack-id map and the expiry schedule are updated together on every path", floor=6)
 @rule("C04", "R02.1", "tracker pairing: the ack-id map and the expiry schedule are updated together on every path", floor=6)
 def r02_1(prog, out):
     A = prog.anchors
@@ -155,6 +157,7 @@ def r02_1(prog, out):
 
 
 @rule("C02", "R02.2", "modify replaces the expiry entry using the old key, then re-inserts the new one", floor=1)
+@rule("C01", "R02.2", "modify replaces the expiry entry using the old key, then re-inserts the new one", floor=1)
 @rule("C05", "R02.2", "modify replaces the expiry entry using the old key, then re-inserts the new one", floor=1)
 @rule("C04", "R02.2", "modify replaces the expiry entry using the old key, then re-inserts the new one", floor=1)
 def r02_2(prog, out):
@@ -337,6 +340,47 @@ def r02_4(prog, out):
                               "although the call reports success", ["bb%d (%s)" % (x, bi.loc(x)) for x in stops][:6])
             else:
                 out.holds(key, bi.loc(e.bb), "all %d mutation(s) of the step are under the `found` arm; an unknown id just moves on to the next one" % len(muts))
+    # every mutation of the methods on the ack / modify paths sits under the `found` arm of a lookup by id:
+    # bulk operations (clear, drain, retain) there act on deliveries the request did not name
+    actor = prog.actor_by_type("::SubscriptionActor")
+    on_path = set()
+    if actor is not None:
+        for vname, vh in actor.variants.items():
+            fields = [f["ty"] for v in prog.facts.adt(actor.request)["variants"] if v["name"] == vname for f in v["fields"]]
+            if not any(A.ty("AckId") in t or A.ty("DeadlineModification") in t for t in fields):
+                continue
+            for (bb, tgt) in vh.calls:
+                tid = prog.qual(prog.facts.body(actor.dispatch), tgt)
+                for cid in prog.cone(tid, follow=("call", "closure")):
+                    cb = prog.facts.body(cid)
+                    if cb is not None and cb.impl_self == tracker and cb.kind == "AssocFn":
+                        on_path.add(cid)
+    for cid in sorted(on_path):
+        bi = prog.info(cid)
+        arms = set()
+        for e in prog.effects(cid):
+            if e.chain or not e.touches(messages):
+                continue
+            t = bi.call_at(e.bb) if bi.body.blocks[e.bb].term.k == "call" else None
+            if t is None or t.callee is None:
+                continue
+            arm = some_arm(bi, e.bb) if t.callee.path.endswith("HashMap::<K, V, S, A>::remove") else occupied_arm(bi, e.bb) if t.callee.path.endswith("::entry") else None
+            if arm is not None:
+                arms.add(arm)
+        for e in prog.own_effects(cid):
+            if not (e.touches(messages) or e.touches(expirations)) or e.kind not in L.MUTATING_KINDS:
+                continue
+            if e.kind in ("remove", "handle") and e.touches(messages) and not e.chain and some_arm(bi, e.bb) is not None:
+                continue   # the lookup itself
+            n += 1
+            key = "%s:keyed:%s@%s" % (prog.short(cid), e.lib.split("::")[-1], e.cells[-1][1])
+            if any(bi.cfg.dominates(a, e.bb) for a in arms):
+                out.holds(key, bi.loc(e.bb), "under the `found` arm of a lookup by ack id", nontrivial=False)
+            elif e.kind in ("clear",) or e.lib.split("::")[-1] in ("drain", "retain", "clear", "split_off", "truncate"):
+                out.violation(key, bi.loc(e.bb), "`%s` on the tracker's %s on the acknowledge / modify path is not keyed by an ack id of the request: deliveries the "
+                              "request did not name are retired (or lose their expiry entry)" % (e.lib.split("::")[-1], e.cells[-1][1]))
+            else:
+                out.undecided(key, bi.loc(e.bb), "mutation outside a found arm")
     if n < 2:
         raise CheckBroken("expected the ack-id lookups of remove() and modify(), found %d" % n)
 
